@@ -36,6 +36,7 @@ func init() {
 		func(c *Ctx) {
 			ruleWASel(c)
 			ruleBTNonNull(c)
+			ruleBTPure(c)
 			ruleWAWR(c, func(ct *CodecType) bool { return strings.Contains(ct.Name, "union") }, 3)
 			ruleEFU(c, "", 4)
 			rulePCArg(c, nil, 18, 3)
@@ -156,6 +157,7 @@ func init() {
 			ruleALBlock(c)
 			ruleALStr(c)
 			ruleALBump(c)
+			ruleALKey(c)
 			ruleODBank(c, findReadFile(c.P))
 			ruleLKPool(c)
 			ruleLKGlobal(c)
@@ -170,6 +172,7 @@ func init() {
 			"Not decided: agreement with time.Parse as a value-level equivalence for all strings (digit-to-number arithmetic, validation of field ranges such as month 13).",
 		func(c *Ctx) {
 			ruleParseTime(c)
+			rulePTPure(c)
 			ruleTLIdx(c)
 			c.Rule("ER-CHECK", erClauses["ER-CHECK"], 8)
 			if fn := c.P.Func(c.P.Time, "parseTime"); fn != nil {
